@@ -17,6 +17,17 @@ def sigma_tokens(sigma):
     return "SV " + bits(s)
 
 
+def sigma_tokens_cells(sigma):
+    """`sigma` of the landmark (DTC) family: a vector is the noise of the CELLS and travels with its length (the
+    driver refuses a length other than the number of cells, as the implementation does)."""
+    if sigma is None:
+        return "SN"
+    s = np.asarray(sigma, float)
+    if s.ndim == 0:
+        return "SS " + fbit(float(s))
+    return f"SVL {s.shape[0]} " + bits(s)
+
+
 def opt_mat(M):
     return "N" if M is None else "Y " + bits(M)
 
@@ -68,7 +79,7 @@ def model_lm(drv, tree, X, Xu, Y, mu, sigma, jitter, ycf, y_is_mean, with_unc, X
     m = Xu.shape[0]
     Y2 = as2d(Y)
     line = (f"lmcond {cov_tokens(tree)} {n} {d} {bits(X)} {m} {bits(Xu)} {Y2.shape[1]} {bits(Y2)} {fbit(mu)} "
-            f"{sigma_tokens(sigma)} {fbit(jitter)} {opt_any(ycf)} {'T' if y_is_mean else 'F'} "
+            f"{sigma_tokens_cells(sigma)} {fbit(jitter)} {opt_any(ycf)} {'T' if y_is_mean else 'F'} "
             f"{'T' if with_unc else 'F'} {Xq.shape[0]} {bits(Xq)}")
     return parse_state(drv.ask(line), m, Y2.shape[1], Xq.shape[0])
 
